@@ -8,8 +8,13 @@ C17 driver.  One script per line:
   attr  = <key hex>:<atom>,<atom>…   value in prefix notation; atoms: e · b0|b1 · i<dec> · d<16 hex> ·
           s<hex> · y<hex> · L<n> (then n values) · M<n> (then n times k<hex> and a value)
   dump  = <AttributesLen> <DroppedAttributes> <attr>*  [& <len> <dropped> <attr>*  (the clone, once it exists)]
+
+  prov <gen> <env count|-> <env length|-> <opts|-> <k> => <attributeCountLimit> <attributeValueLengthLimit> <len> <dropped>
+  (Provider.lean; env = x<hex> value of the variable, `-` = not set; opts = c<int>|l<int>,… in the order passed;
+   k distinct int attributes emitted through Logger.Emit; len/dropped of the record the processor receives)
 -/
 import Otel.C17.Observe
+import Otel.C17.Provider
 open Otel Otel.Wire Otel.C17
 
 namespace Otel.C17.Drv
@@ -210,9 +215,50 @@ def runScript (cl ll : Int) (ops : List (List String)) (obs : List (List String)
 
 def trivialTags : List String := ["set", "fresh", "index", "emit", "clone", "clone-op"]
 
+def parseEnvTok (s : String) : Option Bytes := if s == "-" then some [] else parseHex s
+
+def parsePOpt (s : String) : Option POpt :=
+  match s.toList with
+  | 'c' :: ds => (String.ofList ds).toInt?.map .cnt
+  | 'l' :: ds => (String.ofList ds).toInt?.map .len
+  | _ => none
+
+def parsePOpts (s : String) : Option (List POpt) := if s == "-" then some [] else (s.splitOn ",").mapM parsePOpt
+
+/-- the attributes the harness emits: k<i> = i for i < k -/
+def provAttrs (k : Nat) : List KV :=
+  (List.range k).map (fun (i : Nat) => ((0x6b : UInt8) :: (toString i).toUTF8.toList, LogVal.int (Int.ofNat i)))
+
+def provLine (ec el os ks : String) (obs : List String) : Option Verdict := do
+  let envC ← parseEnvTok ec
+  let envL ← parseEnvTok el
+  let opts ← parsePOpts os
+  let k ← ks.toNat?
+  let [a, b, c, d] := obs | none
+  let cl ← parseInt a
+  let ll ← parseInt b
+  let len ← c.toNat?
+  let dr ← d.toNat?
+  let m := providerLimits opts envC envL
+  let r := emitted opts envC envL (provAttrs k)
+  let agree := cl == m.1 && ll == m.2 && len == r.len && dr == r.dropped
+  let ok := Spec.providerLimitsOK opts envC envL cl ll && Spec.emittedCountOK cl k len dr
+  let src (o : Option Int) (env : Bytes) : String :=
+    match o with
+    | some _ => if env.isEmpty then "opt" else "opt-over-env"
+    | none => if env.isEmpty then "default" else match atoi env with
+      | some _ => "env"
+      | none => "env-bad"
+  let tags := ["cnt-" ++ src (Spec.lastCnt opts) envC, "len-" ++ src (Spec.lastLen opts) envL] ++
+    (if m.1 > 0 ∧ (k : Int) > m.1 then ["emit-cut"] else ["emit-all"])
+  pure { agree := agree, spec := if ok then "ok" else "FAIL",
+         nontrivial := tags.any (fun t => t != "cnt-default" && t != "len-default" && t != "emit-all"),
+         branches := ",".intercalate tags, model := s!"{m.1} {m.2} {r.len} {r.dropped}" }
+
 def stepLine (_ : Unit) (toks : List String) : Unit × Option Verdict :=
   let (inp, obs) := splitObs toks
   match inp with
+  | ["prov", _, ec, el, os, ks] => ((), provLine ec el os ks obs)
   | "rec" :: _ :: cls :: lls :: rest =>
     match parseInt cls, parseInt lls with
     | some cl, some ll =>
